@@ -51,6 +51,7 @@
 // unfolded into the loop that defines them (vstd's prophetic Filter spec / map spec in generic impls out of reach), closure patterns (R2c).
 // Genuine findings: findings/xlsxparts.json (native demonstrations findings/xlsxparts_*.rs); fixed ones are listed under "fixed" there.
 #![feature(pattern)]
+#![feature(allocator_api)]
 #![allow(unused_imports, dead_code, unused_variables, unused_mut, unused_assignments, unexpected_cfgs)]
 use vstd::prelude::*;
 use vstd::std_specs::cmp::PartialEqSpec;
@@ -197,6 +198,10 @@ pub uninterp spec fn is_rel_ns(ns: Seq<u8>) -> bool;
 
 // TRUSTED: A-std -- `Cow::deref` / `Cow::as_ref` yield the borrowed or owned content; `cow_ref` names it
 pub uninterp spec fn cow_ref<'a, 'b, B: ?Sized + ToOwned>(c: &'b Cow<'a, B>) -> &'b B;
+// ASSUMED (std, deliberately weak): Vec::extend appends SOMETHING the iterator yields -- nothing is said about what. It only serves to have
+// text that builds a table with `extend` decided (a clause about the table then fails unless the proof knows the items) instead of rejected.
+pub assume_specification<T, A: std::alloc::Allocator, I: IntoIterator<Item = T>>[ <Vec<T, A> as Extend<T>>::extend ](v: &mut Vec<T, A>, it: I)
+    ensures final(v)@.len() >= old(v)@.len(), final(v)@.subrange(0, old(v)@.len() as int) == old(v)@;
 pub assume_specification<'a, 'b, B: ?Sized + ToOwned>[ <Cow<'a, B> as Deref>::deref ](c: &'b Cow<'a, B>) -> (r: &'b B)
     ensures r == cow_ref(c);
 pub assume_specification<'a, 'b, T: ?Sized + ToOwned>[ <Cow<'a, T> as AsRef<T>>::as_ref ](c: &'b Cow<'a, T>) -> (r: &'b T)
@@ -1956,7 +1961,7 @@ proof fn witness_rl_part(ns: Seq<u8>, id: Seq<u8>, t_raw: Seq<u8>, t: Seq<char>)
 //@@ impl src/xlsx/mod.rs Xlsx
 #[verifier::loop_isolation(false)]
 #[verifier::allow_complex_invariants]
-//@@ fn src/xlsx/mod.rs Xlsx::read_relationships props=C01,C07 entry ret=r
+//@@ fn src/xlsx/mod.rs Xlsx::read_relationships props=C01,C07,C16 entry ret=r
 //@@ sig
     ensures
         //# C01.read_relationships_frame
@@ -1964,7 +1969,7 @@ proof fn witness_rl_part(ns: Seq<u8>, id: Seq<u8>, t_raw: Seq<u8>, t: Seq<char>)
             && final(self).formats == old(self).formats && final(self).is_1904 == old(self).is_1904 && final(self).metadata == old(self).metadata
             && final(self).merged_regions == old(self).merged_regions && final(self).options == old(self).options
             && content(final(self).zip) == content(old(self).zip),
-        //# C01,C07.missing_relationships_part_is_an_error
+        //# C01,C07,C16.missing_relationships_part_is_an_error
         !has_part(content(old(self).zip), rels_path()) ==> r is Err && r->Err_0 is FileNotFound,
         //# C01.relationship_targets_by_id
         ({ let evs = part_events(content(old(self).zip), rels_path());
